@@ -19,7 +19,7 @@ FILES = [
     "qucumber/rbm/purification_rbm.py",
     "qucumber/utils/unitaries.py",
 ]
-REQUIRED_THEOREMS = ["C11_roundtrip", "C11_reserved", "C11_no_side_effect", "C11_idempotent", "C11_history"]
+REQUIRED_THEOREMS = ["C11_roundtrip", "C11_roundtrip_autoload", "C11_reserved", "C11_no_side_effect", "C11_idempotent", "C11_history"]
 EXTRA_TRUSTED = [
     "torch.save / torch.load are a faithful map from the saved dict to the loaded dict (a file is a map of tokens in the model)",
     "tensor contents are identified by the hash of their bytes (tokens); storage identity by data_ptr() with all observed tensors kept alive",
@@ -169,7 +169,10 @@ def gen_plan(rng, maxlen):
             plan.append(op)
             if not op["metadataOnly"]:
                 saved[path] = states[slot]
-            for _ in range(rng.choice([0, 1, 2])):  # ModelSaver: the same metadata object every period
+            for _ in range(rng.choice([0, 1, 2])):  # ModelSaver: the same saver and metadata object every period ...
+                if rng.random() < 0.5:              # ... with the state trained / changed between the periods, as in a real fit
+                    plan.append({"t": "write", "slot": slot, "net": rng.choice(so.NETS[kind])} if rng.random() < 0.5 else
+                                {"t": "train", "slot": slot, "bases": True, "opt": rng.choice(["sgd", "adam"]), "epochs": 1})
                 plan.append(dict(op))
         elif r < 0.87:
             # load: prefer a file written by a state of the same architecture
@@ -205,6 +208,7 @@ class Hooks:
         self.prev = None
         self.dirty = {}  # slot -> source modified (write/train) since construction
         self.nontrivial = False
+        self.cut = False   # set when the implementation's outcome is unconstrained by the property and the model cannot follow it: the history ends
         self.cross_kind = set()  # id(op) of autoloads as ANOTHER state type than the one that wrote the file
 
     def canon_err(self, op, e_impl, e_model):
@@ -271,12 +275,19 @@ class Hooks:
             if t == "saverSave" and op["src"] == "callable":
                 keys = [k for k, _ in op["items"]]
             monly = t == "saverSave" and op["metadataOnly"]
-            has_ud = "unitary_dict" in st.__dict__
+            has_ud = hasattr(st, "unitary_dict")
             reserved = (not monly) and (any(k in st.networks for k in keys) or (has_ud and "unitary_dict" in keys))
             nonstr = (not monly) and any(not isinstance(k, str) for k in keys)
-            expect = "ValueError" if reserved else ("TypeError" if nonstr else None)
-            ctx.oracle("save refuses exactly the reserved names", err == expect, cs, detail={"err": err, "expected": expect, "keys": [str(k) for k in keys]},
-                       sig="save/reserved", theorem="C11_reserved")
+            # "reserved names refused": refused or not - with whatever exception class. A metadata key that is not a string is outside the
+            # property (torch can store it; the present code happens to refuse it): its outcome is a counter, and a history in which the
+            # implementation accepts it ends there (the model refuses, `Store.lean` save)
+            if reserved or not nonstr:
+                ctx.oracle("save refuses exactly the reserved names (refused with any exception / not refused)", (err is not None) == reserved, cs,
+                           detail={"err": err, "reserved": reserved, "keys": [str(k) for k in keys]}, sig="save/reserved", theorem="C11_reserved")
+            else:
+                ctx.count("save:non-string-metadata-key:" + ("accepted" if err is None else f"refused({err})"))
+                if err is None:
+                    self.cut = True
             # no side effects on the metadata object (identity is the caller's variable; contents compared deeply) nor on the model
             ctx.oracle("save leaves the caller's metadata dict unchanged", so.deep_equal(md, pre["md_copy"]), cs,
                        detail={"before": repr(pre["md_copy"])[:300], "after": repr(md)[:300]}, sig="save/metadata-mutated", theorem="C11_no_side_effect")
@@ -324,7 +335,7 @@ class Hooks:
             st = real.models[op["slot"]]
             ls = self.last_saved.get(op["path"])
             if ls is None:
-                ctx.oracle("load of a path never saved raises FileNotFoundError", err == "FileNotFoundError", cs, sig="load/no-file", theorem="C11_history")
+                ctx.count("load:path-never-saved:" + str(err))   # not a clause of the property
             elif ls.get("metadata_only"):
                 ctx.oracle("load of a metadata-only file fails", err is not None, cs, sig="load/metadata-only")
             else:
@@ -350,12 +361,12 @@ class Hooks:
                 phys, off = (real.target_of(op), (real.last_write or {}).get("start", 0)) if t == "save" else real.where(op["path"])
                 if off != 0:
                     ctx.count(f"location_starts_at_nonzero_position:{t}" + (":in_a_stream_of_checkpoints" if os.path.basename(phys).startswith("stream") else ":after_a_header"))
-        if t in ("save", "saverSave") and pre.get("md_copy") and "unitary_dict" in pre["md_copy"] and "unitary_dict" not in real.models[op["slot"]].__dict__:
+        if t in ("save", "saverSave") and pre.get("md_copy") and "unitary_dict" in pre["md_copy"] and not hasattr(real.models[op["slot"]], "unitary_dict"):
             ctx.count("metadata_key_unitary_dict_on_state_without_dictionary:" + ("accepted" if err is None else str(err)))
         if t == "autoload":
             ls = self.last_saved.get(op["path"])
             if ls is None:
-                ctx.oracle("autoload of a path never saved raises FileNotFoundError", err == "FileNotFoundError", cs, sig="autoload/no-file")
+                ctx.count("autoload:path-never-saved:" + str(err))   # not a clause of the property
             elif ls.get("metadata_only"):
                 self.cross_kind.add(id(op))  # a metadata-only checkpoint is not a saved state
             else:
